@@ -113,3 +113,211 @@ fn c08_reset_then_call() {
     forget(r);
     forget(rt);
 }
+
+// ---------------------------------------------------------------- C09: size accounting
+use crate::allocations::Allocateable;
+
+/// an allocateable of arbitrary accounted size
+#[derive(Debug)]
+struct Sz(usize);
+impl Allocateable for Sz {
+    fn byte_size(&self) -> AllocatedMemory {
+        self.0.into()
+    }
+}
+
+/// allocate:  None => Ok(0), size unchanged;
+/// Some(M): Ok(s) => s == byte_size, size' == size + s, size' <= M;  Err => AllocationLimitReached
+/// and size' == size (a failed allocation is not accounted: nothing is constructed that would
+/// give it back).
+#[kani::proof]
+#[kani::stub(std::hash::RandomState::new, const_random_state)]
+fn c09_allocate() {
+    let limit = any_limit();
+    let size: usize = kani::any();
+    let req: usize = kani::any();
+    kani::assume(size.checked_add(req).is_some()); // PRE: the accounted total is representable
+    let rt = mk(RuntimeLimits {
+        size_limit: limit,
+        ..Default::default()
+    });
+    rt.stats.borrow_mut().size = AllocatedMemory(size);
+    let r = rt.allocate(&Sz(req));
+    let size2 = rt.stats.borrow().size.0;
+    match (limit, &r) {
+        (None, Ok(s)) => {
+            assert!(s.0 == 0, "no limit: nothing is accounted (returns 0)");
+            assert!(size2 == size, "no limit: size untouched");
+        }
+        (None, Err(_)) => assert!(false, "no limit: allocation never fails"),
+        (Some(m), Ok(s)) => {
+            assert!(s.0 == req, "Ok returns the accounted size");
+            assert!(size2 == size + req, "Ok adds exactly the accounted size");
+            assert!(size2 <= m, "Ok only within the limit");
+        }
+        (Some(m), Err(e)) => {
+            assert!(matches!(e, RuntimeViolation::AllocationLimitReached), "violation kind");
+            assert!(size + req > m, "Err only when the limit would be exceeded");
+            assert!(size2 == size, "a failed allocation leaves the accounted size unchanged");
+        }
+    }
+    kani::cover!(limit.is_some() && r.is_err(), "err reachable");
+    kani::cover!(limit.is_some() && r.is_ok(), "ok reachable");
+    forget(r);
+    forget(rt);
+}
+
+/// deallocate(s): size' == size - s  (requires s <= size: never underflows for sizes handed out
+/// by allocate, by the contract above).
+#[kani::proof]
+#[kani::stub(std::hash::RandomState::new, const_random_state)]
+fn c09_deallocate() {
+    let limit = any_limit();
+    let size: usize = kani::any();
+    let s: usize = kani::any();
+    kani::assume(s <= size);
+    let rt = mk(RuntimeLimits {
+        size_limit: limit,
+        ..Default::default()
+    });
+    rt.stats.borrow_mut().size = AllocatedMemory(size);
+    rt.deallocate(AllocatedMemory(s));
+    assert!(rt.stats.borrow().size.0 == size - s, "deallocate returns exactly s bytes");
+    forget(rt);
+}
+
+/// allocate followed by deallocate of the returned size is the identity on the accounted total
+#[kani::proof]
+#[kani::stub(std::hash::RandomState::new, const_random_state)]
+fn c09_allocate_deallocate_balance() {
+    let limit = any_limit();
+    let size: usize = kani::any();
+    let req: usize = kani::any();
+    kani::assume(size.checked_add(req).is_some());
+    let rt = mk(RuntimeLimits {
+        size_limit: limit,
+        ..Default::default()
+    });
+    rt.stats.borrow_mut().size = AllocatedMemory(size);
+    let r = rt.allocate(&Sz(req));
+    if let Ok(s) = &r {
+        rt.deallocate(*s);
+    }
+    assert!(rt.stats.borrow().size.0 == size, "allocate (Ok or Err) then drop restores the baseline");
+    forget(r);
+    forget(rt);
+}
+
+/// can_allocate_by:  Err(AllocationLimitReached) <=> limit = Some(M), f() = Some(n), size + n > M
+#[kani::proof]
+#[kani::stub(std::hash::RandomState::new, const_random_state)]
+fn c09_can_allocate_by() {
+    let limit = any_limit();
+    let size: usize = kani::any();
+    let want: Option<usize> = if kani::any() { Some(kani::any()) } else { None };
+    kani::assume(want.map_or(true, |n| size.checked_add(n).is_some()));
+    let rt = mk(RuntimeLimits {
+        size_limit: limit,
+        ..Default::default()
+    });
+    rt.stats.borrow_mut().size = AllocatedMemory(size);
+    let r = rt.can_allocate_by(|| want);
+    let should_fail = match (limit, want) {
+        (Some(m), Some(n)) => size + n > m,
+        _ => false,
+    };
+    assert!(r.is_err() == should_fail, "pre-flight check fails exactly when the limit would be exceeded");
+    assert!(rt.stats.borrow().size.0 == size, "pre-flight check accounts nothing");
+    forget(r);
+    forget(rt);
+}
+
+/// monotonicity in the limit: what is allowed under M is allowed under every M' >= M
+#[kani::proof]
+#[kani::stub(std::hash::RandomState::new, const_random_state)]
+fn c09_allocate_monotone_in_limit() {
+    let m: usize = kani::any();
+    let m2: usize = kani::any();
+    kani::assume(m2 >= m);
+    let size: usize = kani::any();
+    let req: usize = kani::any();
+    kani::assume(size.checked_add(req).is_some());
+    let rt = mk(RuntimeLimits {
+        size_limit: Some(m),
+        ..Default::default()
+    });
+    let rt2 = mk(RuntimeLimits {
+        size_limit: Some(m2),
+        ..Default::default()
+    });
+    rt.stats.borrow_mut().size = AllocatedMemory(size);
+    rt2.stats.borrow_mut().size = AllocatedMemory(size);
+    let r = rt.allocate(&Sz(req));
+    let r2 = rt2.allocate(&Sz(req));
+    assert!(!r.is_ok() || r2.is_ok(), "raising the limit never turns Ok into Err");
+    forget(r);
+    forget(r2);
+    forget(rt);
+    forget(rt2);
+}
+
+// ---------------------------------------------------------------- C11: permissions
+
+fn any_perm() -> Permission {
+    let k: u8 = kani::any();
+    match k % 6 {
+        0 => bp::NOW,
+        1 => bp::PRINT,
+        2 => bp::PRINT_DEBUG,
+        3 => bp::RANDOM,
+        4 => bp::REGEX,
+        _ => bp::SLEEP,
+    }
+}
+
+/// documented defaults: regex and sleep off, the others on -- and distinct ids
+#[kani::proof]
+fn c11_default_table() {
+    assert!(bp::NOW.default && bp::PRINT.default && bp::PRINT_DEBUG.default && bp::RANDOM.default, "now/print/print_debug/random default to allowed");
+    assert!(!bp::REGEX.default && !bp::SLEEP.default, "regex and sleep default to forbidden");
+    let ids = [bp::NOW.id, bp::PRINT.id, bp::PRINT_DEBUG.id, bp::RANDOM.id, bp::REGEX.id, bp::SLEEP.id];
+    let mut i = 0;
+    while i < 6 {
+        let mut j = i + 1;
+        while j < 6 {
+            assert!(ids[i] != ids[j], "permission ids are pairwise distinct");
+            j += 1;
+        }
+        i += 1;
+    }
+}
+
+// PermissionSet::{get, allow, forbid} and RuntimeLimits::check_permission are under Verus contracts
+// (unit V-perm): std HashMap is beyond CBMC here (measured: no verdict in 15 min even for concrete
+// keys; hashbrown probing + SipHash).
+
+// ---------------------------------------------------------------- C13: checked float constructor
+use crate::xvalue::XValue;
+
+/// XValue::float(x): Ok(Ok(Float(y))) => y is x and finite; a non-finite x never yields a Float.
+#[kani::proof]
+#[kani::unwind(8)]
+#[kani::stub(std::hash::RandomState::new, const_random_state)]
+fn c13_checked_float_ctor() {
+    let x: f64 = kani::any();
+    let rt = mk(RuntimeLimits::default());
+    let r = XValue::<W, R, T>::float(x, &rt);
+    match &r {
+        Ok(Ok(XValue::Float(y))) => {
+            assert!(x.is_finite(), "a Float value is only built from a finite operand");
+            assert!(y.to_bits() == x.to_bits(), "the payload is the operand");
+        }
+        Ok(Ok(_)) => assert!(false, "float() builds nothing but Float"),
+        Ok(Err(_)) => assert!(!x.is_finite(), "an error value only for a non-finite operand"),
+        Err(_) => assert!(!x.is_finite(), "no violation for a finite operand"),
+    }
+    kani::cover!(matches!(&r, Ok(Ok(_))), "finite reachable");
+    kani::cover!(matches!(&r, Ok(Err(_))), "non-finite reachable");
+    forget(r);
+    forget(rt);
+}
